@@ -2570,6 +2570,17 @@ pub mod cs {
     }
   }
 
+  /// The restore scenario keeps one cost per key: overwriting with a different cost is what
+  /// upsets some policies' own accounting (C13/C14 matter) and would blur the comparison.
+  fn key_cost(k: u64) -> u64 {
+    match vh_core::rng::splitmix(k) % 8 {
+      0 => 0,
+      6 => 2,
+      7 => 4,
+      _ => 1,
+    }
+  }
+
   fn gen_restore(rng: &mut Rng, tick: u64) -> RestoreCase {
     let policy = rng.pick(&["default", "tinylfu", "sieve", "slru", "arc", "lru", "fifo", "clock", "random"]).to_string();
     let capacity = *rng.pick(&[5u64, 10, 20, 50, 100, 1000]);
@@ -2586,11 +2597,7 @@ pub mod cs {
         0 => fill.push(FillOp::Get { k }),
         1 => fill.push(FillOp::Advance { ns: *rng.pick(&[1u64, 1_000_000, 500_000_000, 2_000_000_000]) }),
         _ => {
-          let cost = match rng.below(8) {
-            0 => 0,
-            1 | 2 => rng.range(2, 5),
-            _ => 1,
-          };
+          let cost = key_cost(k);
           let ttl = match rng.below(5) {
             0 => Some(*rng.pick(&[1u64, 1_000_000, 3_000_000_000, 10_000_000_000, 60_000_000_000])),
             1 => Some(rng.range(1, 20_000_000_000)),
@@ -2605,7 +2612,7 @@ pub mod cs {
     let mut post = Vec::new();
     for _ in 0..npost {
       let k = if rng.chance(1, 4) { *rng.pick(&keys) } else { *rng.pick(&fresh) };
-      post.push((k, rng.range(0, 4)));
+      post.push((k, key_cost(k)));
     }
     RestoreCase {
       cfg: CacheCfg {
@@ -2772,6 +2779,10 @@ pub mod cs {
       }
     });
     let te = now;
+    // ... and after: at quiescence an entry seen before and after was there throughout (on a
+    // bounded cache the policy's admission filter may drop entries during the flush that the
+    // enumeration itself triggers)
+    let present: BTreeSet<u64> = present.into_iter().filter(|k| rig.peek(*k, false) == Some(ents[k].val)).collect();
     let mut must: BTreeMap<u64, u64> = BTreeMap::new();
     let mut must_not: BTreeMap<u64, &'static str> = BTreeMap::new();
     let mut known: BTreeMap<u64, u64> = BTreeMap::new();
@@ -2972,6 +2983,12 @@ pub mod cs {
     let snap = orig.snapshot(c.asy_snapshot);
     let sents = snapshot_entries(&snap);
     let comp_s = if c.asy_snapshot { "async.to_snapshot" } else { "to_snapshot" };
+    // to_snapshot may flush pending policy events first (admission filter): the content right
+    // after it is what the snapshot was taken from
+    let g_before = g.len();
+    g.retain(|k, e| orig.peek(*k, false) == Some(e.val));
+    let g_cost: u64 = g.values().map(|e| e.cost).sum();
+    out.c("restore/entries_dropped_by_flush_inside_to_snapshot", (g_before - g.len()) as u64);
     let must: BTreeMap<u64, u64> = g.iter().map(|(k, e)| (*k, e.val)).collect();
     let must_not: BTreeMap<u64, &'static str> = ents.iter().filter_map(|(k, e)| m.def_expired(e, t0).map(|cz| (*k, cz))).collect();
     let known: BTreeMap<u64, u64> = ents.iter().map(|(k, e)| (*k, e.val)).collect();
@@ -3127,7 +3144,7 @@ pub mod cs {
         out.findings.push(f17(
           "restore",
           "over-capacity",
-          &c.cfg.policy,
+          if c.cfg.policy == "default" { "tinylfu" } else { &c.cfg.policy },
           format!(
             "after {} inserts and maintenance to a fixpoint the rebuilt cache holds entries worth {} > capacity {} (a normally filled cache with the same content and inserts: {}); {}",
             c.post.len(), sum_r, cap, sum_c, ctx
